@@ -315,6 +315,14 @@ class SCellMap:
 
     def hm_getattr(self, interp, name, node):
         from .interp import Builtin
+        if name == 'items':
+            def items(i, a, k, n):
+                if not self.mutable:
+                    raise Unsupported('iteration over the static cell_map', n)
+                snap = heap_of(i.ex)['set:cell_map']
+                return SAbstractSet(lambda nd, _s=snap: z3.Select(_s, nd), 'cell_map items',
+                                    element=lambda ii, nd: (SAddrKey(nd), heap_cell(ii, nd)))
+            return Builtin('cell_map.items', items)
         if name == 'get':
             def get(i, a, k, n):
                 key = a[0]
